@@ -1,6 +1,7 @@
 package main
 
 import (
+	"regexp"
 	"strings"
 
 	"golang.org/x/tools/go/ssa"
@@ -135,19 +136,21 @@ func (c *Ctx) edgeMust(P, rule, fnName, condRe string, truth bool, mustRe string
 func (c *Ctx) mapWriters(P, rule, pkg, mapRe string, allowed []string, why string) Obligation {
 	o := c.obl(P, rule, pkg+":"+mapRe, "updates of and deletes from maps rendering as /"+mapRe+"/ in "+pkg+" occur only in {"+strings.Join(allowed, ", ")+"} — "+why)
 	re := c.E1.re(mapRe)
-	ok := func(n string) bool {
-		for _, a := range allowed {
-			if a == n {
-				return true
-			}
-		}
-		return false
+	var quoted []string
+	for _, a := range allowed {
+		quoted = append(quoted, regexp.QuoteMeta(a))
+	}
+	var curFn *ssa.Function
+	ok := func(string) bool {
+		r, _ := c.allowedFn(curFn, quoted)
+		return r
 	}
 	for fn := range c.A.AllFns {
 		if fn.Blocks == nil || fnPkgPath(fn) != repoMod+"/"+pkg {
 			continue
 		}
 		name := FnName(fn)
+		curFn = fn
 		for _, b := range fn.Blocks {
 			for _, ins := range b.Instrs {
 				switch x := ins.(type) {
@@ -186,12 +189,11 @@ func (c *Ctx) callsOnlyIn(P, rule, pkg, callRe string, allowed []string, min int
 		name := FnName(fn)
 		for _, s := range c.callSites(fn, callRe) {
 			o.Facts++
-			found := false
+			var quoted []string
 			for _, a := range allowed {
-				if a == name {
-					found = true
-				}
+				quoted = append(quoted, regexp.QuoteMeta(a))
 			}
+			found, _ := c.allowedFn(fn, quoted)
 			if !found {
 				o.fail(c.A.Pos(s.Ins.Pos()), "%s calls %s", name, s.Desc)
 			}
